@@ -7,7 +7,9 @@ it holds; SA4023 corollary: a comparison a diagnostic calls impossible never tak
 Per program (seeded random generator `h-irsem gennil` over the property's vocabulary + the DIRECTED family
 `gennil -directed` (one function per transfer rule of the analysis x merging shape: the value produced by the rule is
 merged, via a phi or via two return statements, with a definitely non-nil value in result 0 and with nil in result 1,
-which is where a rule that leaves its value unset or is too optimistic becomes visible) + hand-written corpus, root
+which is where a rule that leaves its value unset or is too optimistic becomes visible) + the REFINEMENT-BY-USE family
+`gennil -use` (instruction that makes its operand non-nil x source of the value x shape in which the use happens on one
+path only and the value is returned after the join) + hand-written corpus, root
 package + ./lib so that facts cross a package boundary):
   * claims: the REAL analysis results — nilness.Result read by a probe analyzer that runs, together with
     SA4023, through the real staticcheck runner (lintcmd.Command in h-irsem claims);
@@ -190,10 +192,12 @@ def run(ctx):
     workers = 4
     if ctx.quick:
         # 2 random programs + the directed family, every source once in a seeded merging shape
-        ngen, nfns, maxvec, ndir, dirfull = 2, 12, 32, 2, False
+        # + the refinement-by-use family, every use once (source and shape rotate with the seed), one program
+        ngen, nfns, maxvec, ndir, dirfull, nuse = 2, 12, 32, 2, False, 1
     else:
         # 12 random programs + the directed family, every source in every shape
-        ngen, nfns, maxvec, ndir, dirfull = 12, 14, 64, 6, True
+        # + the refinement-by-use family: every use x every source, all shapes for the default-valued sources
+        ngen, nfns, maxvec, ndir, dirfull, nuse = 12, 14, 64, 6, True, 6
     if os.environ.get("VERIF_CAP"):      # smoke-run of a tier with fewer generated programs
         ngen = min(ngen, int(os.environ["VERIF_CAP"]))
 
@@ -208,7 +212,7 @@ def run(ctx):
     else:
         gd = ctx.tmp("gennil")
         rc, so, se = vlib.sh([helper, "gennil", "-seed", str(ctx.seed), "-n", str(ngen), "-fns", str(nfns), "-dir", gd,
-                              "-directed", str(ndir)] + (["-full"] if dirfull else []), timeout=120)
+                              "-directed", str(ndir), "-use", str(nuse)] + (["-full"] if dirfull else []), timeout=120)
         if rc != 0:
             raise Inconclusive("generator failed: " + se[-1000:])
         if os.path.isdir(NILCORPUS):
@@ -341,19 +345,29 @@ def run(ctx):
         samples.append({"program": np.name, "call": run["desc"], "claims": claim_str(run["claims"]),
                         "ir": {"status": cases[0]["s"], "pattern": cases[0]["pat"]}, "native": run["nat"], "verdict": cases[0]["v"]})
     # directed family: per transfer rule, the functions generated and the executions that returned normally
-    kinds = {}
+    # refinement-by-use family (Kind "use/<instruction>"): likewise, plus the executions that return nil (the path that
+    # skipped the use) and those that panic in the use
+    kinds, ukinds = {}, {}
     for np, run, cases in results:
         m = np.meta.get(run["fn"])
-        if m:
+        if m and m["Kind"].startswith("use/"):
+            k = ukinds.setdefault(m["Kind"][4:], {"functions": set(), "runs": 0, "runs_returning": 0, "runs_returning_nil": 0, "runs_panicking": 0})
+            k["runs_returning_nil"] += 1 if run["nat"]["panic"] == 0 and run["nat"]["pat"][0]["o"] == 1 else 0
+            k["runs_panicking"] += run["nat"]["panic"]
+        elif m:
             k = kinds.setdefault(m["Kind"], {"functions": set(), "runs": 0, "runs_returning": 0})
-            k["functions"].add((np.name, run["fn"]))
-            k["runs"] += 1
-            k["runs_returning"] += 1 if cases[0]["s"] == "done" else 0
-    for k in kinds.values():
+        else:
+            continue
+        k["functions"].add((np.name, run["fn"]))
+        k["runs"] += 1
+        k["runs_returning"] += 1 if cases[0]["s"] == "done" else 0
+    for k in list(kinds.values()) + list(ukinds.values()):
         k["functions"] = len(k["functions"])
     ctx.coverage = {
         "directed_family": kinds,
         "directed_functions": sum(k["functions"] for k in kinds.values()),
+        "use_family": ukinds,
+        "use_functions": sum(k["functions"] for k in ukinds.values()),
         "states": stats["states"],
         "transitions": stats["transitions"],
         "traces_validated_against_impl": total,
